@@ -174,7 +174,7 @@ AddAppointmentF(st, who, a, orc) ==
                                          IN CASE hb.cls = "acc" ->
                                                    [st |-> [st2 EXCEPT !.trackers = st2.trackers \cup
                                                                {[u |-> u, l |-> a.l, d |-> d, p |-> p, h |-> hb.h, conf |-> hb.conf]}],
-                                                    reply |-> okReply, sends |-> snd, abort |-> "", hs |-> hb.hs]
+                                                    reply |-> okReply, sends |-> snd, abort |-> "", hs |-> {<<k, hb.hs>>}]
                                               [] hb.cls = "rej" -> Out(DropAppts(st2, {k}), okReply, snd)
                                               [] hb.cls = "res" -> Out(st2, okReply, snd)
                                               [] OTHER -> [st |-> st2, reply |-> okReply, sends |-> snd, abort |-> "norpc", hs |-> {}]
